@@ -180,16 +180,16 @@ def step (st : State) : Form → Except Err State
   | .defmethod fl k m id =>
     if st.defd fl then .ok (defmethod st fl k m id) else .error .undefinedFlavor
 
-/-- run a history given NEWEST FORM FIRST -/
-def runR (vm : List Msg) : List Form → Except Err State
-  | [] => .ok (init vm)
-  | f :: older =>
-    match runR vm older with
-    | .ok st => step st f
+/-- run the forms one after the other, starting from `st`; stops at the first rejected form -/
+def runFrom (st : State) : List Form → Except Err State
+  | [] => .ok st
+  | f :: rest =>
+    match step st f with
+    | .ok st' => runFrom st' rest
     | .error e => .error e
 
-/-- run a history in chronological order -/
-def run (vm : List Msg) (h : List Form) : Except Err State := runR vm h.reverse
+/-- run a history (chronological order) in a fresh world that only has vanilla-flavor -/
+def run (vm : List Msg) (h : List Form) : Except Err State := runFrom (init vm) h
 
 /-! ### sending a message -/
 
